@@ -26,8 +26,9 @@ RULES = {
     "R5": "a supplied mapping is used and handed back verbatim by both encoders (shared with C01.R5)",
     "R6": "Screen.__init__ passes the supplied treatment / sample mapping to the encoders as existing_mapping; the mapping properties return what the encoders handed back",
     "R7": "the saved training and test screens are the two results of one hold-out split, saved as returned: nothing re-encodes (smooths, regenerates, combines) one half after the split",
+    "R8": "the constructor keeps as its mappings exactly what the encoders returned (no cast of a mapping column on the way into self._X_mapping): a supplied mapping keeps naming the same samples and treatments through every rebuild",
 }
-MIN = {"R1": 12, "R2": 2, "R3": 5, "R4": 3, "R5": 4, "R6": 3, "R7": 1}
+MIN = {"R1": 12, "R2": 2, "R3": 5, "R4": 3, "R5": 4, "R6": 3, "R7": 1, "R8": 2}
 TRUSTED = ["python ast semantics", "numpy boolean indexing keeps row order", "call graph: typed resolution + name-CHA "
            "fallback (over-approximate); dynamic class lookup via introspection.get_class is assumed to yield "
            "subclasses of the declared base"]
@@ -337,7 +338,11 @@ def common_reaching(fnode, st):
     return reaching_env(fnode, st)
 
 
-RULE_FUNCS = [r1, r2, r3, r4, r5, r6, r7]
+def r8(ctx):
+    common.stored_mappings_verbatim(ctx, "R8")
+
+
+RULE_FUNCS = [r1, r2, r3, r4, r5, r6, r7, r8]
 
 
 def _drop_kw(fn_name, kw):
@@ -358,6 +363,8 @@ def _rep(a, b):
 
 
 WITNESSES = [
+    ("stored sample mapping cast to the rows' dtype", "batchie.data",
+     _rep("        self._sample_mapping = (unique_sample_names, unique_sample_ids)", "        self._sample_mapping = (unique_sample_names.astype(sample_names.dtype), unique_sample_ids)"), ["R8"]),
     ("training half smoothed after the split", "batchie.cli.prepare_retrospective_simulation",
      _rep("    training_screen.save_h5(args.training_output)", "    if args.plate_smoother is not None:\n        training_screen = args.plate_smoother_cls(**args.plate_smoother_params).smooth_plates(screen=training_screen, rng=rng)\n    training_screen.save_h5(args.training_output)"), ["R7"]),
     ("reveal_plates drops sample_mapping", "batchie.retrospective", _drop_kw("reveal_plates", "sample_mapping"), ["R1"]),
